@@ -37,7 +37,6 @@ LEAN_KEYWORDS = {'end', 'from', 'at', 'in', 'open', 'then', 'else', 'do', 'let',
 FUNCS = [
     ('geophires_x/Economics.py', 'BuildPTCModel', {}),
     ('geophires_x/Economics.py', 'BuildPricingModel', {}),
-    ('geophires_x/Economics.py', 'CalculateTotalRevenue', {'AnnualRev': 'List'}),
     ('geophires_x/Economics.py', 'CalculateRevenue', {'Energy': 'List', 'Price': 'List'}),
     ('geophires_x/WellBores.py', 'InjectionReservoirPressurePredictor', {}),
     ('geophires_x/WellBores.py', 'ReservoirPressurePredictor', {}),
@@ -54,6 +53,14 @@ FUNCS = [
 FRAGMENTS = [
     ('geophires_x/Economics.py', 'Economics', 'Calculate', 'PaybackFragment', 'self.ProjectPaybackPeriod.value', 2,
      {'self.TotalCummRevenue.value': ('TotalCummRevenue', 'List')}, 'self.ProjectPaybackPeriod.value', ('ProjectPaybackPeriod', 'Rat')),
+    # the project cash flow as Economics.Calculate assembles it in place (CalculateTotalRevenue is not called any more):
+    # CAPEX shares into the construction years, O&M off the operating years, then the running sum
+    ('geophires_x/Economics.py', 'Economics', 'Calculate', 'CashFlowFragment', 'ProjectCAPEXPerConstructionYear', 4,
+     {'self.TotalRevenue.value': ('TotalRevenue', 'List'), 'self.TotalCummRevenue.value': ('TotalCummRevenue', 'List'),
+      'self.CCap.value': ('CCap', 'Rat'), 'self.Coam.value': ('Coam', 'Rat'),
+      'model.surfaceplant.construction_years.value': ('construction_years', 'Int'),
+      'model.surfaceplant.plant_lifetime.value': ('plant_lifetime', 'Int')},
+     '(self.TotalRevenue.value, self.TotalCummRevenue.value)', None),
 ]
 
 ANNOT = {'int': 'Int', 'float': 'Rat', 'bool': 'Bool', 'list': 'List'}
@@ -495,13 +502,14 @@ def generate() -> tuple[str, dict]:
             text = f'/- {name}: NOT TRANSLATABLE ({ex}) -/\n'
             info[name] = {'file': rel, 'translated': False, 'why': str(ex)}
         parts.append((f'/-- transcription of `{name}` ({rel}) -/\n' if info[name]['translated'] else '') + text)
-    for rel, cls, meth, name, first, count, inputs, result, (rname, rtype) in FRAGMENTS:
+    for rel, cls, meth, name, first, count, inputs, result, rspec in FRAGMENTS:
         path = SRC / rel
         try:
             tree = ast.parse(path.read_text())
             cdef = next(n for n in tree.body if isinstance(n, ast.ClassDef) and n.name == cls)
             mdef = next(n for n in cdef.body if isinstance(n, ast.FunctionDef) and n.name == meth)
             frag = None
+            after = []
             for node in ast.walk(mdef):
                 for fld in ('body', 'orelse'):
                     seq = getattr(node, fld, None)
@@ -511,19 +519,28 @@ def generate() -> tuple[str, dict]:
                         if isinstance(st, ast.Assign) and len(st.targets) == 1 and ast.unparse(st.targets[0]) == first:
                             if frag is None:     # ast.walk is breadth-first: the outermost occurrence; others are checked below
                                 frag = seq[k:k + count]
+                                after = seq[k + count:]
             if frag is None or len(frag) != count:
                 raise Unsupported(f'statements starting at `{first} = …` not found')
-            # no other statement of the method may assign the result (the fragment is all that computes it)
-            others = [n for n in ast.walk(mdef) if isinstance(n, (ast.Assign, ast.AugAssign))
-                      and any(ast.unparse(t) == result for t in (n.targets if isinstance(n, ast.Assign) else [n.target]))
-                      and not any(n is x for f in frag for x in ast.walk(f))]
+            # nothing after the fragment (in its block) may assign a result again: the fragment is what computes the reported value
+            results = [ast.unparse(e) for e in ast.parse(result, mode='eval').body.elts] if result.startswith('(') else [result]
+
+            def targets_of(n):
+                ts = n.targets if isinstance(n, ast.Assign) else [n.target]
+                out_ = []
+                for t in ts:
+                    for e in (t.elts if isinstance(t, ast.Tuple) else [t]):
+                        out_.append(ast.unparse(e.value) if isinstance(e, ast.Subscript) else ast.unparse(e))
+                return out_
+            others = [n for st in after for n in ast.walk(st) if isinstance(n, (ast.Assign, ast.AugAssign)) and any(t in results for t in targets_of(n))]
             if others:
-                raise Unsupported(f'{result} is also assigned outside the fragment')
+                raise Unsupported(f'{results} assigned again after the fragment (line {others[0].lineno})')
             ret = ast.Return(value=ast.parse(result, mode='eval').body)
             fn = ast.FunctionDef(name=name, args=ast.arguments(posonlyargs=[], args=[], kwonlyargs=[], kw_defaults=[], defaults=[]),
                                  body=list(frag) + [ret], decorator_list=[])
             attrs = dict(inputs)
-            attrs[result] = (rname, None)
+            if rspec is not None:
+                attrs[result] = (rspec[0], None)
             tr = Tr(fn, {}, attrs)
             tr.extra_params = [(n, t) for n, t in inputs.values()]
             text = tr.emit()
